@@ -3,6 +3,7 @@ schedules of the (trial, fold) tasks), (V) traces of the real tuners / ml::tune 
 import os
 from concurrent.futures import ThreadPoolExecutor
 
+import combinatorial
 import common
 import tuneresult
 import trace
@@ -16,6 +17,8 @@ def run(rep, tier):
     work = common.workdir("C13")
     # the tuning book-keeping (ml::result_t): TuneResult.tla, every edge replayed on the real object
     tuneresult.run(rep, "C13", tier)
+    # the odometer that enumerates the 3^d neighbours of a grid point: Combinatorial.tla, replayed on the real iterator
+    combinatorial.run(rep, "C13", tier)
     cfgs = [("Tuner", "Tuner_q_local.cfg", 4), ("Tuner", "Tuner_q_surrogate.cfg", 4), ("Tuner", "Tuner_q_1d.cfg", 2),
             ("Tuner", "Tuner_q_3d.cfg", 2), ("MLTune", "MLTune_mc.cfg", 2)]
     if tier == "thorough":
